@@ -836,8 +836,35 @@ def str_format(f, args, kwargs):
             val = kwargs[field]
         else:
             val = None
-        if val is None or (spec and "{" in spec):
+        if val is None:
             return Op("m:format", f, *args)
+        if spec and "{" in spec:
+            # nested replacement fields inside the format spec ('{:0{}X}'): automatic numbering continues
+            sp_parts = []
+            try:
+                nested = list(string.Formatter().parse(spec))
+            except Exception:
+                return Op("m:format", f, *args)
+            for l2, f2, s2, c2 in nested:
+                if l2:
+                    sp_parts.append(Const(l2))
+                if f2 is None:
+                    continue
+                if s2 or c2:
+                    return Op("m:format", f, *args)
+                if f2 == "":
+                    v2 = args[auto] if auto < len(args) else None
+                    auto += 1
+                elif f2.isdigit():
+                    v2 = args[int(f2)] if int(f2) < len(args) else None
+                else:
+                    v2 = kwargs.get(f2)
+                if v2 is None:
+                    return Op("m:format", f, *args)
+                sp_parts.append(fv(v2, "", ""))
+            spec_t = fmt(sp_parts)
+            parts.append(fv(val, spec_t if not is_const(spec_t, str) else spec_t.v, conv or ""))
+            continue
         parts.append(fv(val, spec or "", conv or ""))
     return fmt(parts)
 
